@@ -132,6 +132,35 @@ func c04FrameName(l string) string {
 // recursive function: among the cog functions seen at least three times, one named *esolve* if
 // any (the alias-cycle recursions), otherwise the alphabetically first
 func c04RecursionRoot(lines []string) string {
+	// the runtime prints the 50 innermost and the 50 outermost frames of an overflowing stack with
+	// "...N frames elided..." in between: the cycle is in the innermost part; the outermost part
+	// only holds the (finite) call path that led to it
+	inner := lines
+	for i, l := range lines {
+		if strings.Contains(l, "frames elided") {
+			inner = lines[:i]
+			break
+		}
+	}
+	if len(inner) < len(lines) {
+		if r := c04RecursionCog(inner, 2); r != "" {
+			return "recursion:" + r
+		}
+		if r := c04RecursionLib(inner); r != "" {
+			return "recursion:lib:" + r
+		}
+	}
+	if r := c04RecursionCog(lines, 3); r != "" {
+		return "recursion:" + r
+	}
+	if r := c04RecursionLib(lines); r != "" {
+		return "recursion:lib:" + r
+	}
+	return "?"
+}
+
+// c04RecursionCog: the cog function that occurs at least `min` times (a *esolve* function first, then by name)
+func c04RecursionCog(lines []string, min int) string {
 	count := map[string]int{}
 	for _, l := range lines {
 		if strings.HasPrefix(l, c04CogModule) && !strings.Contains(l, "/cmd/verifharness") {
@@ -140,7 +169,7 @@ func c04RecursionRoot(lines []string) string {
 	}
 	best := ""
 	for fn, n := range count {
-		if n < 3 {
+		if n < min {
 			continue
 		}
 		better := best == "" || (strings.Contains(fn, "esolve") && !strings.Contains(best, "esolve")) ||
@@ -149,27 +178,28 @@ func c04RecursionRoot(lines []string) string {
 			best = fn
 		}
 	}
-	if best == "" {
-		// the recursion is not in cog: name the most frequent function of whatever library it is in
-		all := map[string]int{}
-		for _, l := range lines {
-			if len(l) == 0 || l[0] == '\t' || l[0] == ' ' || strings.HasPrefix(l, "runtime.") || strings.HasPrefix(l, "goroutine ") || !strings.Contains(l, "(") {
-				continue
-			}
-			all[c04FrameName(l)]++
+	return best
+}
+
+// c04RecursionLib: the recursion is not in cog: the most frequent function of whatever library it is in
+func c04RecursionLib(lines []string) string {
+	all := map[string]int{}
+	for _, l := range lines {
+		if len(l) == 0 || l[0] == '\t' || l[0] == ' ' || strings.HasPrefix(l, "runtime.") || strings.HasPrefix(l, "goroutine ") || !strings.Contains(l, "(") {
+			continue
 		}
-		n := 0
-		for fn, c := range all {
-			if c > n || (c == n && fn < best) {
-				best, n = fn, c
-			}
-		}
-		if best == "" || n < 3 {
-			return "?"
-		}
-		return "recursion:lib:" + best
+		all[c04FrameName(l)]++
 	}
-	return "recursion:" + best
+	best, n := "", 0
+	for fn, c := range all {
+		if c > n || (c == n && fn < best) {
+			best, n = fn, c
+		}
+	}
+	if n < 3 {
+		return ""
+	}
+	return best
 }
 
 func c04Recovered(res *c04Result, rec any, stage string) {
